@@ -126,7 +126,7 @@ type rangeIter struct {
 }
 
 func (f *Frame) execRange(in *ssa.Range, st *State) {
-	f.set(in, []Term{f.ctx.fresh("iter", SInt)})
+	f.vals[in] = []Term{f.ctx.fresh("iter", SInt)}
 	f.ctx.eng.iters[f.vals[in][0].S] = &rangeIter{x: f.get(in.X), typ: in.X.Type()}
 }
 
